@@ -608,7 +608,8 @@ def cnode_txt(code, graph_items, mates):
         if code.is_in_bounds(x.index):
             return 'd:' + idx2(x.index)
         return 'v:' + idx2(owner[id(x)])
-    return (';'.join('{}>{}'.format(t(a), t(b)) for a, b in mates) or '_',
+    # identity-hashed nodes: set order and pair orientation depend on object addresses -> canonicalise both
+    return (canon_pairs(';'.join('{}>{}'.format(t(a), t(b)) for a, b in mates) or '_'),
             canon_pairs(';'.join('{}>{}'.format(t(a), t(b)) for (a, b), _ in graph_items) or '_'))
 
 
